@@ -378,8 +378,17 @@ pub fn unit_c07(w: &World, seed: u64, unit: u64, tier: Tier) -> Vec<Case> {
             if (61..70).contains(&d) {
                 continue;
             }
-            let tv = if r.chance(1, 2) { struct_chain(d, r.range(1, 20) as i16) } else { container_chain(&mut r, d) };
-            debug_assert_eq!(tv.depth(), d);
+            let tv = match r.below(5) {
+                0 | 1 => struct_chain(d, r.range(1, 20) as i16),
+                2 => container_chain(&mut r, d),
+                3 => wide_run(&mut r),
+                _ => rich_chain(&mut r, d.saturating_sub(3)),
+            };
+            // the depth is taken from the value (rich chains and wide runs choose their own)
+            let d = tv.depth();
+            if (61..70).contains(&d) {
+                continue;
+            }
             let e = encode_value(proto, &tv, Style::default());
             let len = e.out.len();
             let mut vb = e.out.clone();
